@@ -59,8 +59,10 @@ CHECKS = {
               "UFL/Basix, not from FFCx's IR. C kernels additionally run with NaN sentinels/canaries."),
         design="DESIGN.md §6 C08"),
     "C09": dict(
-        technique="Lean 4 proof (dtype merge laws, conj/real/imag folding sound on real operands) + complete math-table scan + four-way differential vs oracle",
-        text=("mathfn_fold_sound, mergeDtypes_* are proved; the math-function table is scanned completely from source; every selected form is compiled for the four scalar types and compared "
+        technique="Lean 4 proof (dtype discipline sound: under a per-kernel certificate the truncating C semantics equals the exact semantics; dtype merge laws; conj/real/imag folding) + complete math-table signature scan + four-way differential vs oracle",
+        text=("dtype_sound / truncation_free / real_targets_receive_reals: for every kernel passing the decidable certificate dtypeCert no complex value is ever stored into a double temporary or passed to a real math function "
+              "(certificate evaluated on every real kernel, complex128 and float64, optimised and unoptimised); mathfn_fold_sound, mergeDtypes_* are proved; the math-function table is scanned completely (function × scalar type × argument dtypes "
+              "against a C99 signature table); complex-argument probes must be rejected or match complex arithmetic; every selected form is compiled for the four scalar types and compared "
               "with the oracle on real and complex data (complex mode: oracle evaluates UFL's sesquilinear lowering in complex arithmetic). Precision agreement is floating point: differential."),
         design="DESIGN.md §6 C09"),
     "C10": dict(
@@ -110,8 +112,10 @@ CHECKS = {
               "optimised and unoptimised ASTs are additionally executed exactly over Rat."),
         design="DESIGN.md §6 C17"),
     "C18": dict(
-        technique="Lean 4 proof (declared kernel extents = contract extents for every integral type) + complete numba function table scan + plain-Python execution vs C",
-        text=("tensor_sizes_integral/expression are proved for any integral type and sizes; every math-function handler is formatted by the numba formatter and must be a call of an existing callable; "
+        technique="Lean 4 proof (the C and numba descriptor generators agree for all IRs; declared kernel extents = contract extents) + model/implementation correspondence for both backends + complete numba function table scan + plain-Python execution vs C",
+        text=("form_same_encoding / form_descriptors_agree / form_descriptors_agree_compiled / integral_descriptors_agree / expression_descriptors_partial: Lean transcriptions of the C and numba form, integral and expression "
+              "generators produce the same descriptor for every IR (ids, offsets, names, positions, shapes; NULL exactly where numba has None), each transcription is compared with the real backend output on the corpus and on synthetic IRs; "
+              "tensor_sizes_integral/expression are proved for any integral type and sizes; every math-function handler is formatted by the numba formatter and must be a call of an existing callable; "
               "each generated numba module is parsed, executed in plain Python with bounds-checked carray views of exactly the declared extents, and compared kernel by kernel and field by field with the C backend. "
               "The Python-grammar round trip of the numba formatter is C16's subject."),
         design="DESIGN.md §6 C18"),
